@@ -31,6 +31,8 @@ def enc(v):
         return {"d": v.isoformat()}
     if isinstance(v, (list, tuple)):
         return {"l": [enc(x) for x in v]}
+    if isinstance(v, (bytes, bytearray)):
+        return {"b": bytes(v).hex(), "ba": isinstance(v, bytearray)}
     if isinstance(v, _dec.Decimal):
         return {"dec": str(v)}
     if isinstance(v, _frac.Fraction):
@@ -50,6 +52,8 @@ def dec(j):
             return _dt.date.fromisoformat(j["d"])
         if "l" in j:
             return [dec(x) for x in j["l"]]
+        if "b" in j:
+            return bytearray.fromhex(j["b"]) if j.get("ba") else bytes.fromhex(j["b"])
         if "dec" in j:
             return _dec.Decimal(j["dec"])
         if "frac" in j:
@@ -89,6 +93,7 @@ POOLS = {
     "date": [D1, D2, D3],
     "datetime": [DT1, DT2, DT3, DT4],
     # "arbitrary other classes": uniform columns of these report their own type, mixtures degrade to object
+    "bytes": [b"ab", b"\x07", b"", b"xyz"],
     "decimal": [_dec.Decimal("1.10"), _dec.Decimal("2"), _dec.Decimal("-0.5")],
     "fraction": [_frac.Fraction(1, 3), _frac.Fraction(2, 1), _frac.Fraction(-1, 2)],
 }
@@ -148,6 +153,8 @@ def kind_of(v):
         return "complex"
     if isinstance(v, str):
         return "str"
+    if isinstance(v, bytes):
+        return "bytes"
     if isinstance(v, _dt.datetime):
         return "datetime"
     if isinstance(v, _dt.date):
@@ -162,7 +169,7 @@ def kind_of(v):
 def tv(e):
     """(type name, repr) - exact and independent of PYTHONHASHSEED / addresses."""
     t = type(e)
-    if t in (int, float, bool, str, complex, type(None)):
+    if t in (int, float, bool, str, complex, type(None), bytes, bytearray):
         return (t.__name__, repr(e))
     if isinstance(e, (_dt.date, _dt.datetime)):
         return (t.__name__, e.isoformat())
